@@ -591,6 +591,9 @@ def failclosed_oracle(n_quick=120, n_thorough=2500):
                 ['zero', lab], ['zerountil', lab], ['instr', 'jmp', [lab]], ['instr', 'ldi', ['a', ('bin', '-', lab, lab)]],
                 ['org', lab, None], ['align', lab], ['const', 'KUNRES', lab])]
         forms += [('unknown instruction', ['other_text', t]) for t in ('frobnicate a, 5', 'ldii a, 5', 'nopp', '.bite 1')]
+        # something that merely starts like a directive; text that is no statement behind a directive or a constant definition
+        forms += [('unknown instruction', ['other_text', t]) for t in ('.alignfoo !!! garbage', '.align4', 'KFC1 = 5 , ldi a, 300',
+                                                                       'KFC2 = 5 ! garbage', '.memzone GLOBAL junk')]
         forms += [('no variant accepts', st) for st in (['instr', 'ldi', ['a', 'b']], ['instr', 'nop', [num(1)]], ['instr', 'ldi', ['a']],
                                                         ['instr', 'ldi', ['a', num(1), num(2)]], ['instr', 'jmp', ['a']])]
         # text left over behind a well-formed operand, made of characters that belong to no token of the expression language
